@@ -49,20 +49,21 @@ func (k *killStore) Mutate(m []*storage.Mutation, meta []byte) error {
 }
 
 type childPlan struct {
-	Dir     string
-	Tag     string
-	Entries int
-	Seed    uint64
-	From    int
-	To      int
-	KillAt  int
-	After   bool
-	Raft    bool
-	Port    int
-	Recover bool
-	Close   bool // close the node cleanly after the workload and exit 0
-	FailAt  int  // the FailAt-th store write returns an error
-	Snap    bool // take a raft snapshot right before the clean stop (nothing is applied after it)
+	Dir       string
+	Tag       string
+	Entries   int
+	Seed      uint64
+	From      int
+	To        int
+	KillAt    int
+	After     bool
+	Raft      bool
+	Port      int
+	Recover   bool
+	Close     bool // close the node cleanly after the workload and exit 0
+	FailAt    int  // the FailAt-th store write returns an error
+	Snap      bool // take a raft snapshot right before the clean stop (nothing is applied after it)
+	SnapAfter int  // > 0: take a raft snapshot after that many entries of this run and go on inserting (the store is then ahead of the newest snapshot when the process stops or is killed)
 }
 
 type ackLine struct {
@@ -156,6 +157,13 @@ func raftChild(p childPlan, acks *os.File) {
 			os.Exit(4)
 		}
 		writeAck(acks, i, snaps, false)
+		if p.SnapAfter > 0 && i+1 == p.SnapAfter {
+			if err := n.VForceSnapshot(); err != nil {
+				fmt.Println("SNAPSHOT-NOTE", err)
+			} else {
+				fmt.Println("SNAPSHOT-TAKEN-MIDWAY")
+			}
+		}
 		if !p.Recover {
 			time.Sleep(3 * time.Millisecond)
 		}
@@ -367,9 +375,9 @@ func crashCmd(out *cq.Out, seed uint64, tier string) {
 	for t := 0; t < kills; t++ {
 		dir, _ := os.MkdirTemp(out.Dir, "rk")
 		port := freePorts(1)[0]
-		desc := map[string]interface{}{"seed": seed, "kind": "raft-sigkill", "trial": t}
+		desc := map[string]interface{}{"seed": seed, "kind": "raft-sigkill", "trial": t, "raft_snapshot_midway": t%2 == 1}
 		killAfter := time.Duration(1500+rng.Intn(1500)) * time.Millisecond
-		o1, _ := runChild(out, childPlan{Dir: dir, Tag: fmt.Sprintf("rk%d", t), Entries: 100000, Seed: seed + uint64(t), Raft: true, Port: port}, killAfter)
+		o1, _ := runChild(out, childPlan{Dir: dir, Tag: fmt.Sprintf("rk%d", t), Entries: 100000, Seed: seed + uint64(t), Raft: true, Port: port, SnapAfter: (t % 2) * (3 + rng.Intn(20))}, killAfter)
 		acks := readAcks(dir + "/acks.jsonl")
 		if strings.Contains(o1, "STARTERR") || strings.Contains(o1, "NOLEADER") || len(acks) == 0 {
 			out.Count("raft_kill_skipped_infrastructure", 1)
